@@ -142,14 +142,32 @@ func c17Run(w *W) {
 		w.Failf("HARNESS/listen", "%v", err)
 		return
 	}
+	// one receiver may stall (tiny queue, never read) and go away in the middle
+	// of the traffic: whatever the sender has in flight towards it - handed to
+	// the transport, being written, queued - fails there while the same
+	// message is still owned by the other receivers' queues. On every
+	// transport, inproc included (which has no connection to reset).
+	stallClose := -1
+	var stalled mangos.Socket
+	if nrecv >= 2 && topo != "reqrep" && w.Choose(simrt.SShape, 3) == 0 {
+		stallClose = w.Choose(simrt.SShape, nmsg)
+		w.SetShape("stalled_receiver_closes_at", stallClose)
+	}
 	for i := 0; i < nrecv; i++ {
 		r := sock(rkind)
 		if rkind == "sub" {
 			mustSet(w, r, mangos.OptionSubscribe, "")
 		}
+		if stallClose >= 0 && i == nrecv-1 {
+			_ = r.SetOption(mangos.OptionReadQLen, 1)
+			stalled = r
+		}
 		if err := w.DialOn(r, addr); err != nil {
 			w.Failf("HARNESS/dial", "%v", err)
 			return
+		}
+		if r == stalled {
+			continue
 		}
 		rcvs = append(rcvs, rcv{fmt.Sprintf("%s%d", rkind, i), r.RecvMsg, r})
 		// extra contexts share the same publications
@@ -181,6 +199,13 @@ func c17Run(w *W) {
 					break
 				}
 			}
+		}
+		if i == stallClose && stalled != nil {
+			w.Op("the stalled receiver closes")
+			w.Fault("close")
+			stalled.Close()
+			w.Settle()
+			w.Probe("stalled-receiver-closed-mid-traffic")
 		}
 		sz := c17Sizes[w.Choose(simrt.SProg, len(c17Sizes))]
 		body := patBody(fmt.Sprintf("m%d", i), sz)
